@@ -1,0 +1,17 @@
+//go:build verif
+
+package statsdaemon
+
+import "github.com/atlassian/gostatsd/pkg/backends/sender"
+
+// SetConnFactory replaces the function the client uses to connect, both in its sender (metrics)
+// and in SendEvent. It must be called before Run, SendMetricsAsync and SendEvent.
+// It is compiled only with the "verif" build tag, for the external verification harness.
+func (client *Client) SetConnFactory(f sender.ConnFactory) {
+	client.sender.ConnFactory = f
+}
+
+// PacketSize returns the size limit the client applies to one write (1472 for UDP, 1 MiB for TCP).
+func (client *Client) PacketSize() int {
+	return client.packetSize
+}
